@@ -10,6 +10,7 @@ import HT.Model.Auth
 import HT.Model.Event
 import HT.Model.Path
 import HT.Model.Identity
+import HT.Model.Agent
 /-!
 Line-protocol driver: one case per input line, `<model> <args…>`; one output line
 per case.  Core Lean only (so it links as an executable).
@@ -34,6 +35,7 @@ def dispatch (line : String) : String :=
   | "ev" :: args => Ev.driver args
   | "path" :: args => Path.driver args
   | "idtok" :: args => Id.driver args
+  | "agent" :: args => Agent.driver args
   | _ => "bad-model"
 
 partial def loop (h : IO.FS.Stream) (out : IO.FS.Stream) : IO Unit := do
